@@ -1,3 +1,4 @@
+import HqModel.Props.C09Rpc
 import HqModel.Props.SysW
 import HqModel.Props.WorkerSide
 import HqModel.Lemmas.JobSteps
